@@ -48,6 +48,9 @@ pub struct Recorder {
     pub name_pool: std::collections::BTreeSet<String>,
     /// names that must keep their identity (used as dependency or duplicated)
     pub sensitive: std::collections::BTreeSet<String>,
+    /// unrelated dispatchers built on the side while a recorded builder is half built (they stay alive until the end)
+    pub noise: Vec<shred::Dispatcher<'static, 'static>>,
+    pub noise_share: f64,
     /// a pool attached to the top-level builder BEFORE anything is registered (otherwise the caller attaches one at the end)
     #[cfg(feature = "parallel")]
     pub early_pool: Option<std::sync::Arc<rayon::ThreadPool>>,
@@ -136,6 +139,8 @@ impl Recorder {
             print_every,
             name_pool: Default::default(),
             sensitive: Default::default(),
+            noise: Vec::new(),
+            noise_share: NOISE.with(|n| n.get()),
             #[cfg(feature = "parallel")]
             early_pool: None,
             toggle_counter: 0,
@@ -271,6 +276,56 @@ impl Recorder {
     }
 
     /// Builds a builder from `prog`; returns it with its builder index.
+    /// An unrelated builder + dispatcher on the side, using the names of the program being recorded: nothing
+    /// it does may influence the recorded builder (no shared state between builders / dispatchers).
+    fn make_noise(&mut self, prog: &Prog) {
+        let names: Vec<String> = prog
+            .ops
+            .iter()
+            .filter_map(|o| match o {
+                Op::Add { name, .. } | Op::Batch { name, .. } if !name.is_empty() => Some(name.clone()),
+                _ => None,
+            })
+            .collect();
+        let r = catch_unwind(AssertUnwindSafe(|| {
+            let mut nb: DispatcherBuilder<'static, 'static> = DispatcherBuilder::new();
+            #[cfg(feature = "parallel")]
+            nb.add_pool(crate::record::shared_pool());
+            let mut have: Vec<String> = Vec::new();
+            let n = self.rng.gen_range(1..=7);
+            for i in 0..n {
+                let name = if !names.is_empty() && self.rng.gen_bool(0.7) { names.choose(&mut self.rng).unwrap().clone() } else { format!("noise{}", i) };
+                if have.contains(&name) {
+                    continue;
+                }
+                let deps: Vec<&str> = if !have.is_empty() && self.rng.gen_bool(0.4) { vec![have.choose(&mut self.rng).unwrap().as_str()] } else { vec![] };
+                match self.rng.gen_range(0..4) {
+                    0 => nb.add(NoiseW, &name, &deps),
+                    1 => nb.add(NoiseR, &name, &deps),
+                    _ => nb.add(NoiseN, &name, &deps),
+                }
+                have.push(name);
+                if self.rng.gen_bool(0.2) {
+                    nb.add_barrier();
+                }
+            }
+            if self.rng.gen_bool(0.3) {
+                nb.add_thread_local(NoiseN);
+            }
+            nb.build()
+        }));
+        if let Ok(mut d) = r {
+            if self.rng.gen_bool(0.5) {
+                let mut w = shred::World::empty();
+                let _ = catch_unwind(AssertUnwindSafe(|| {
+                    d.setup(&mut w);
+                    d.dispatch(&w);
+                }));
+            }
+            self.noise.push(d);
+        }
+    }
+
     pub fn build(&mut self, prog: &Prog) -> (DispatcherBuilder<'static, 'static>, usize) {
         if self.next_builder == 1 {
             prog.sensitive_names(&mut self.sensitive);
@@ -291,6 +346,9 @@ impl Recorder {
             self.events.push(json!({"ev":"barrier","b":bidx}));
         }
         for op in &prog.ops {
+            if self.noise_share > 0.0 && self.rng.gen_bool(self.noise_share) {
+                self.make_noise(prog);
+            }
             match op {
                 Op::Barrier => {
                     b.add_barrier();
@@ -598,4 +656,34 @@ pub fn parse_par_seq(text: &str) -> Option<Vec<Vec<Vec<Vec<u32>>>>> {
         return None;
     }
     Some(stages)
+}
+
+thread_local! {
+    static NOISE: std::cell::Cell<f64> = std::cell::Cell::new(0.0);
+}
+
+/// Share of registration steps of the following programs (this thread) in front of which an unrelated
+/// dispatcher is built (and sometimes run) on the side.
+pub fn set_noise(p: f64) {
+    NOISE.with(|n| n.set(p));
+}
+
+#[derive(Default)]
+pub struct NoiseRes(pub u64);
+pub struct NoiseW;
+impl<'a> shred::System<'a> for NoiseW {
+    type SystemData = shred::Write<'a, NoiseRes>;
+    fn run(&mut self, mut d: Self::SystemData) {
+        d.0 += 1;
+    }
+}
+pub struct NoiseR;
+impl<'a> shred::System<'a> for NoiseR {
+    type SystemData = shred::Read<'a, NoiseRes>;
+    fn run(&mut self, _: Self::SystemData) {}
+}
+pub struct NoiseN;
+impl<'a> shred::System<'a> for NoiseN {
+    type SystemData = ();
+    fn run(&mut self, _: ()) {}
 }
